@@ -58,6 +58,24 @@ func (e *Engine) verifyFunction(fc *FuncContract) *FuncResult {
 		// free variables are addresses of captured variables
 		fr.vars["&"+fv.Name()] = v
 		vf.env["&"+fv.Name()] = v
+		if pt, ok := fv.Type().Underlying().(*types.Pointer); ok && v.S == SInt {
+			st.assume(not(eq(v.Tm, "0"))) // the cell of a captured variable exists
+			if fc.Flags["capturednonnil"] {
+				// synthetic contracts (nopanicarg): what the enclosing function captured is taken to be well-formed, i.e.
+				// non-nil where it is a pointer or an interface (assumption, listed in the evidence)
+				if s := sortOf(pt.Elem()); s == SInt || s == SIface {
+					if a := (&Val{T: fv.Type(), S: SInt, Tm: v.Tm, A: &Addr{Kind: "cell", Base: v.Tm, ElemT: pt.Elem()}}); a != nil {
+						if lv := st.load(v, pt.Elem()); lv != nil {
+							if lv.S == SIface {
+								st.assume(not(eq(lv.Tm, "iface_nil")))
+							} else if _, isPtr := pt.Elem().Underlying().(*types.Pointer); isPtr {
+								st.assume(not(eq(lv.Tm, "0")))
+							}
+						}
+					}
+				}
+			}
+		}
 	}
 	if st.frontier == "" {
 		st.frontier = "0"
